@@ -17,6 +17,10 @@ CHECKS = {
    text="Lean theorems over all file contents: C09_idempotent (formatFile out = ok out whenever formatFile b = ok out — for every file without `\\r\\r` line ends, which is known finding D22), built from per-directive re-emission lemmas (processLine_reemit: every line the formatter writes is recognised again as the same directive with the same arguments at the same indentation, for block start/end, flags/prefix/suffix, define, include, include-except and plain lines; formatLines_reemit; processLine_good: no line break or trailing CR is invented), C09_canonical_frame (header, one empty line, body without trailing empty lines, exactly one final newline), processLine_indent / processLine_flags_col0 / processLine_none_iff (indentation bookkeeping), C09_check_iff (--check succeeds iff formatting is the identity and the lint is silent) and C09_error_writes_nothing. "
         "Tie: processLine, processFile (real code via hooks) and every directive pattern of regex/definitions.go alone vs the compiled model on pattern-directed line material, byte-exact; format / format --check binary on sandbox trees (format twice, format then check, headers, trailing lines, CRLF).",
    design="§7 C09", technique="Lean 4 proof (re-emission lemmas per directive, list induction, scan/unlines round trip) + differential correspondence with the Go code"),
+ "C10": dict(
+   text="PARTIAL (per-line theorems proved; their lift through include expansion and the assembler to `generate(format b) = generate b` is checked, not proved). Lean theorems for every line and indentation level: C10_view_preserved (every recogniser the parser consults — blank, comment, definition, include, include-except, flags, prefix, suffix — answers on the formatted line exactly as on the original, and plain text is identical; built on the re-emission lemmas of C09 and on C03_classification_unambiguous), C10_parser_step_same (hence parseLines takes the same step: same state or same error, for every parser state, include tree and continuation), C10_block_start_same (a block start stays text for the parser and the assembler reads the same processor name and argument word), C10_lines_pointwise / C10_file_lines (formatting is one line for one line, in order: nothing dropped, duplicated or reordered; the file is header + formatted lines − trailing empties), C09_error_writes_nothing. Known finding D23 (dangling `--` dropped) proved as a fact of the model. NOT proved: white space is the only thing that changes inside a re-emitted directive line (checked by the oracle). "
+        "Tie: processLine / processFile / Parse(formatOnly) vs the compiled model; oracle on the real binary: generate before and after format (same regex or same failure), sequence of lines with white space removed, on pattern-directed .ra material incl. commented-out directives, unbalanced markers, unusual spacing.",
+   design="§7 C10", technique="Lean 4 proof (per-line view preservation via re-emission and disjointness of recognisers; pointwise line relation) + differential correspondence + generate-before/after oracle"),
  "C14": dict(
    text="Lean theorems: for every marker pattern on its own and for all lines, the last invocation wins (C14_header_last_wins, C14_year_last_wins, C14_secrule_ver_last_wins, C14_signature_last_wins); lines without marker characters are unchanged (C14_frame); per-line laws lift to whole files (updateRules_last_wins_of_line, hypothesis: no CR CR LF = D22). "
         "Not yet proved: the setup-version pattern alone and the composition of the five patterns on lines carrying several marker kinds — those are covered by the correspondence and the sequence oracle only. "
